@@ -809,7 +809,16 @@ pub fn execute_l2(sc: &Scenario, mode: Mode, tag: &str, mut trace: Option<&mut V
                   for e in v {
                     if !want.get(m).map(|w| w.iter().any(|x| x.0 == e.0)).unwrap_or(false) {
                       let k = kind_from_text(e.0.split(" | ").nth(1).unwrap_or(""));
-                      let sig = if k == "NonExhaustiveMatch" { format!("counterexample_choice|{k}") } else { format!("list_order|{k}") };
+                      // the recorded findings (F7) can only swap or choose among names of 16 bytes or more
+                      let counterpart = want.get(m).and_then(|w| w.iter().find(|y| y.1 == e.1 && !v.iter().any(|z| z.0 == y.0)));
+                      let f7 = counterpart.map(|y| simcore::explained_by_order_of_long_names(&e.0, &y.0)).unwrap_or(false);
+                      let what = match (k == "NonExhaustiveMatch", f7) {
+                        (true, true) => "counterexample_choice",
+                        (true, false) => "counterexample_choice_not_by_long_names",
+                        (false, true) => "list_order",
+                        (false, false) => "list_order_not_by_long_names",
+                      };
+                      let sig = format!("{what}|{k}");
                       if !result.violations.iter().any(|x| x.signature == sig) {
                         result.violations.push(crate::exec::Found { signature: sig, op_index: messages_sent as usize, detail: format!("L2 {label}: module {m} has the same diagnostic as a fresh server up to the order / choice of listed names") });
                       }
